@@ -103,6 +103,8 @@ func main() {
 		for _, n := range names {
 			fmt.Println(n)
 		}
+	case "names":
+		code = cmdNames(w)
 	case "dump":
 		code = cmdDump(w, fs.Args(), *verbose, *showQuery)
 	case "check":
